@@ -69,7 +69,10 @@ def check_case(ctx: Ctx, case) -> None:
     lines = [S.track_line(it) for it in items]
     rc = {"phrases": phrases, "notes": note_ticks, "lines": lines}
     header = S.HEADER_LIST[(len(lines) * 7 + len(phrases) * 3 + sum(note_ticks)) % 40]
-    chart, tr = T.parse_track(ctx, res, case.get("tempo", TEMPO), lines, header, rc, fmt=case.get("fmt", 0))
+    # a section without any phrase always has neighbours (two thirds of the time a fuller sibling
+    # difficulty of the same instrument whose phrase covers every note)
+    chart, tr = T.parse_track(ctx, res, case.get("tempo", TEMPO), lines, header, rc, fmt=case.get("fmt", 0),
+                              decoy=None if phrases else 3)
     if tr is None:
         return
     got_sp = [[e.tick, e.sustain] for e in tr.star_power_events]
@@ -190,6 +193,8 @@ def _relations(draw, ctx):
                 notes = notes + [t + k * span for t in n0]
         if tail_only:
             notes = sorted(set(notes) | {reps * span + 1, reps * span + 2})
+    if draw(st.integers(0, 9)) == 0:
+        phrases = []            # a track with notes and no phrase at all
     if draw(st.integers(0, 7)) == 0:
         # everything moved up across the width of a machine integer, one fastest tempo
         off = draw(st.sampled_from(G.BIG_OFFSETS_32 + G.BIG_OFFSETS_64))
